@@ -1,7 +1,7 @@
 (* C07 — comparisons compose along a lineage. *)
 From Coq Require Import List Arith Bool String.
-From PyHam Require Import Tax Ortho Mapper Preds.
-From PyHam.proofs Require Import TaxFacts MapperFacts.
+From PyHam Require Import Tax Ortho Loader Mapper Preds Whole.
+From PyHam.proofs Require Import TaxFacts MapperFacts WholeFacts.
 Import ListNotations.
 
 (* For genomes A above B above C on one lineage (B = sA ++ A, C = sB ++ B) and a gene c of C with
@@ -11,7 +11,7 @@ Import ListNotations.
      exactly as y is (same ancestor x or none), flagged iff f1 or y's own flag between A and B;
    - if c has no ancestor in B, it has none in A, with the same flag. *)
 Theorem c07_compose : forall t fo A B C sA sB c fc ch,
-  wfb t fo = true -> B = sA ++ A -> sA <> [] -> C = sB ++ B -> sB <> [] ->
+  wfbc t fo = true -> B = sA ++ A -> sA <> [] -> C = sB ++ B -> sB <> [] ->
   In (c, fc, ch) (genome_nodes fo C) ->
   match walk B fc ch with
   | (Some y, f1) =>
@@ -29,6 +29,24 @@ Proof. reflexivity. Qed.
 Print Assumptions c07_upmap_is_walk.
 
 (* non-vacuity: a family with a duplication, three levels *)
+
+(* end to end: for every consistent input the composition law holds on the loaded forest *)
+Theorem c07_every_consistent_input : forall t d hs,
+  consistent t d hs ->
+  exists l, load t d = Ok l /\ forall A B C sA sB c fc ch,
+    B = sA ++ A -> sA <> [] -> C = sB ++ B -> sB <> [] -> In (c, fc, ch) (genome_nodes (forest_of l) C) ->
+    match walk B fc ch with
+    | (Some y, f1) =>
+        exists fy chy, In (y, fy, chy) (genome_nodes (forest_of l) B) /\
+                       walk A fc ch = (fst (walk A fy chy), f1 || snd (walk A fy chy))
+    | (None, f1) => walk A fc ch = (None, f1)
+    end.
+Proof.
+  intros t d hs Hc. destruct (consistent_forest t d hs Hc) as (l & El & Hw & _). exists l. split; [exact El|].
+  intros A B C sA sB c fc ch HB HsA HC HsB Hin. exact (compose_forest t (forest_of l) A B C sA sB c fc ch Hw HB HsA HC HsB Hin).
+Qed.
+Print Assumptions c07_every_consistent_input.
+
 Definition m0 : hmeta := {| m_id := None; m_og := None; m_props := []; m_scores := []; m_synth := false |}.
 Definition tr : stree :=
   SNode "R" [SNode "X" []; SNode "M" [SNode "E" [SNode "H" []; SNode "P" []]; SNode "C" []]].
@@ -39,7 +57,7 @@ Definition fam : hog :=
                                       (None, HGene "c1" [1; 1])])].
 Definition fo0 : forest := {| fo_tops := [fam]; fo_singles := [] |}.
 Example c07_nonvacuous :
-  wfb tr fo0 = true /\
+  wfbc tr fo0 = true /\
   map (fun e => (href (fst e), option_map href (fst (snd e)), snd (snd e))) (upmap fo0 [] [0; 0; 1])
     = [(RGene "h1", Some (RHog 0), true); (RGene "h2", Some (RHog 0), true)] /\
   map (fun e => (href (fst e), option_map href (fst (snd e)), snd (snd e))) (upmap fo0 [1] [0; 0; 1])
